@@ -31,6 +31,13 @@ func run(c *wk.Ctx) {
 			runCase(c, i)
 		}
 	}
+	// component level: merged / indexed iterators arranged as the DB arranges them
+	ncomp := c.Pick(400, 6000)
+	for i := 0; i < ncomp; i++ {
+		if c.Mine(1000000 + i) {
+			componentCase(c, 1000000+i)
+		}
+	}
 }
 
 func runCase(c *wk.Ctx, i int) {
